@@ -491,6 +491,8 @@ def run(pid, tier):
             ck.case((st["op"], tuple(m["cls"] for m in in_q), tuple(tuple(m["shape"]) for m in in_q)), nontrivial=quantized_out or bool(in_q),
                     sample={"op": st["op"], "operands": [m["cls"] + str(m["shape"]) for m in in_q], "result": [m.get("cls") for m in metas]} if len(ck.samples) < 5 and quantized_out else None)
             branch_hits[(st["op"], "quantized" if quantized_out else "plain")] = branch_hits.get((st["op"], "quantized" if quantized_out else "plain"), 0) + 1
+            if st.get("reused_object_ok") is False:
+                ck.violation(f"{st['op']} on a quantized tensor object whose codes were overwritten in place (copy_) differs from the op on a fresh tensor holding the same codes (stale result keyed by object identity)", ctx)
             if pid == "C06":
                 for m in metas:
                     audit_meta(ck, m, ctx)
